@@ -8,6 +8,7 @@ import (
 	"go/ast"
 	"go/token"
 	"go/types"
+	"strings"
 
 	"golang.org/x/tools/go/cfg"
 
@@ -213,6 +214,14 @@ func r1(c *core.Ctx) {
 							return true
 						}
 					}
+					// `out := ds.sendBuf`: a local alias, followed by IsSendBuf
+					if len(par.Lhs) == len(par.Rhs) {
+						for i, r := range par.Rhs {
+							if r == ast.Expr(x) && IsSendBuf(info, par.Lhs[i]) {
+								return true
+							}
+						}
+					}
 				case *ast.CallExpr:
 					if bi, ok := core.Callee(info, par).(*types.Builtin); ok && (bi.Name() == "len" || bi.Name() == "cap") {
 						return true
@@ -296,6 +305,11 @@ func r3(c *core.Ctx, s *Sender) {
 			Target:    s.IsRecv, TargetExit: cfgq.NormalExit})
 		if inGraph != len(s.Appends) {
 			c.Undecidedf(rule, "append-unless-marker", s.RecvComm.Pos(), "the batch is appended to inside a closure; paths of the receive arm cannot be judged")
+		} else if w != nil && s.G.Path(cfgq.Query{From: cfgq.Point{B: s.RecvBody, I: 0}, Avoid: s.IsAppend,
+			AvoidEdge: func(b *cfg.Block, si int) bool {
+				return opaqueEdge(s, b, si) || s.Fl.Edge(func(ft cfgq.Fact) bool { return isHold(holdS, true)(ft) || isHold(holdE, true)(ft) })(b, si)
+			}, Target: s.IsRecv, TargetExit: cfgq.NormalExit}) == nil {
+			c.Undecidedf(rule, "append-unless-marker", s.RecvComm.Pos(), "the append is skipped under a condition on the barrier state that the rule cannot read")
 		} else {
 			c.Check(rule, "append-unless-marker", s.RecvComm.Pos(), w == nil,
 				"a command taken from ds.sendBuf must be appended to the batch on every path except those on which the barrier state is HoldStart/HoldEnd (source MULTI/EXEC); on this path a real command is discarded", w...)
@@ -313,6 +327,12 @@ func r3(c *core.Ctx, s *Sender) {
 				tn := pt.Node()
 				w := s.G.Path(cfgq.Query{From: cfgq.Point{B: s.RecvBody, I: 0}, AvoidEdge: s.Fl.Edge(isHold(k.k, false)),
 					Target: func(n ast.Node) bool { return n == tn }, Avoid: s.IsRecv})
+				if w != nil && s.G.Path(cfgq.Query{From: cfgq.Point{B: s.RecvBody, I: 0},
+					AvoidEdge: func(b *cfg.Block, si int) bool { return opaqueEdge(s, b, si) || s.Fl.Edge(isHold(k.k, false))(b, si) },
+					Target:    func(n ast.Node) bool { return n == tn }, Avoid: s.IsRecv}) == nil {
+					c.Undecidedf(rule, fmt.Sprintf("marker-not-cached/%s#%d", k.name, i+1), a.Pos(), "the append is guarded by a condition on the barrier state that the rule cannot read")
+					continue
+				}
 				c.Check(rule, fmt.Sprintf("marker-not-cached/%s#%d", k.name, i+1), a.Pos(), w == nil,
 					"the append must be reachable only after the barrier state was found different from the "+k.name+" marker state: otherwise the source's "+k.name+" is forwarded and nests inside / breaks the checkpoint transaction on the target", w...)
 			}
@@ -350,7 +370,7 @@ func r3(c *core.Ctx, s *Sender) {
 	// (c) the closure sends the whole batch, each item once
 	switch x := ast.Unparen(s.RangeExpr).(type) {
 	case *ast.Ident:
-		c.Okf(rule, "range-whole-batch", s.Range.Pos(), "sendFunc ranges over the whole batch in index order")
+		c.Okf(rule, "range-whole-batch", s.Loop.Pos(), "sendFunc ranges over the whole batch in index order")
 	case *ast.SliceExpr:
 		lowOK := x.Low == nil
 		if v, isC := core.IntConst(info, x.Low); x.Low != nil && isC && v == 0 {
@@ -358,22 +378,22 @@ func r3(c *core.Ctx, s *Sender) {
 		}
 		highOK := x.High == nil || pat.Expr("len(_t)").Match(info, x.High, pat.Binds{"_t": x.X}) != nil
 		if IsObj(info, s.Tunnel)(x.X) && lowOK && highOK {
-			c.Okf(rule, "range-whole-batch", s.Range.Pos(), "sendFunc ranges over the whole batch in index order")
+			c.Okf(rule, "range-whole-batch", s.Loop.Pos(), "sendFunc ranges over the whole batch in index order")
 		} else if IsObj(info, s.Tunnel)(x.X) {
-			c.Failf(rule, "range-whole-batch", s.Range.Pos(), "sendFunc ranges over `%s`: the commands outside that window are never sent but are cleared with the batch", c.Src(x))
+			c.Failf(rule, "range-whole-batch", s.Loop.Pos(), "sendFunc ranges over `%s`: the commands outside that window are never sent but are cleared with the batch", c.Src(x))
 		} else {
-			c.Undecidedf(rule, "range-whole-batch", s.Range.Pos(), "unknown ranged expression `%s`", c.Src(x))
+			c.Undecidedf(rule, "range-whole-batch", s.Loop.Pos(), "unknown ranged expression `%s`", c.Src(x))
 		}
 	default:
-		c.Undecidedf(rule, "range-whole-batch", s.Range.Pos(), "unknown ranged expression `%s`", c.Src(s.RangeExpr))
+		c.Undecidedf(rule, "range-whole-batch", s.Loop.Pos(), "unknown ranged expression `%s`", c.Src(s.RangeExpr))
 	}
 	var rbody, rhead *cfg.Block
 	rg, rinfo := s.RC.G, s.RC.Info // the graph that holds the range loop
 	for _, b := range rg.CFG.Blocks {
-		if b.Stmt == ast.Stmt(s.Range) && b.Kind == cfg.KindRangeBody {
+		if b.Stmt == s.Loop && b.Kind == s.KBody() {
 			rbody = b
 		}
-		if b.Stmt == ast.Stmt(s.Range) && b.Kind == cfg.KindRangeLoop {
+		if b.Stmt == s.Loop && b.Kind == s.KHead() {
 			rhead = b
 		}
 	}
@@ -391,7 +411,7 @@ func r3(c *core.Ctx, s *Sender) {
 			}
 		}
 	}
-	c.Check(rule, "one-send-per-item", s.Range.Pos(), !twice,
+	c.Check(rule, "one-send-per-item", s.Loop.Pos(), !twice,
 		fmt.Sprintf("within one iteration over the batch at most one conn.Send may execute (%d Send sites, one reachable from another): each extra Send applies every command of the batch once more on the target", len(s.Data)))
 	site := s.Data[0]
 	call := &ast.CallExpr{Fun: site.Call.Fun, Args: site.Args, Lparen: site.Call.Lparen, Rparen: site.Call.Rparen}
@@ -399,10 +419,10 @@ func r3(c *core.Ctx, s *Sender) {
 		call.Ellipsis = site.Call.Rparen
 	}
 	okArgs := len(call.Args) == 2 && call.Ellipsis.IsValid() &&
-		isFieldOf(rinfo, call.Args[0], s.ItemVar, "Cmd") && isFieldOf(rinfo, call.Args[1], s.ItemVar, "Args")
+		itemField(rinfo, s, call.Args[0], "Cmd") && itemField(rinfo, s, call.Args[1], "Args")
 	if okArgs {
 		c.Okf(rule, "send-args", call.Pos(), "Send(item.Cmd, item.Args...) of the ranged element")
-	} else if mentionsObj(info, call, s.Tunnel) || !mentionsObj(rinfo, call, s.ItemVar) || len(call.Args) != 2 {
+	} else if s.ItemVar != nil && (mentionsObj(info, call, s.Tunnel) || !mentionsObj(rinfo, call, s.ItemVar)) || len(call.Args) != 2 {
 		c.Failf(rule, "send-args", call.Pos(), "`%s` does not send the ranged element's command with all its arguments: the target receives a different command than the source issued", c.Src(call))
 	} else {
 		c.Undecidedf(rule, "send-args", call.Pos(), "`%s` is not the known Send(item.Cmd, item.Args...) form", c.Src(call))
@@ -423,7 +443,7 @@ func r3(c *core.Ctx, s *Sender) {
 			reach := BlocksFrom(cfgq.Point{B: body, I: 0}, false, isData)
 			skipped := reach[head]
 			for _, b := range rg.CFG.Blocks { // leaving the loop early (break/return) also skips the rest of the batch
-				if reach[b] && b.Kind == cfg.KindRangeDone && b.Stmt == ast.Stmt(s.Range) {
+				if reach[b] && b.Kind == s.KDone() && b.Stmt == s.Loop {
 					skipped = true
 				}
 			}
@@ -431,11 +451,11 @@ func r3(c *core.Ctx, s *Sender) {
 			// the loop is left only through its head (no break / return after a partial batch)
 			early := false
 			for b := range BlocksFrom(cfgq.Point{B: body, I: 0}, false, nil, head) {
-				if b.Kind == cfg.KindRangeDone && b.Stmt == ast.Stmt(s.Range) || rg.Exit(b) == cfgq.ExitRet {
+				if b.Kind == s.KDone() && b.Stmt == s.Loop || rg.Exit(b) == cfgq.ExitRet {
 					early = true
 				}
 			}
-			c.Check(rule, "send-whole-batch", s.Range.Pos(), !early, "the loop over the batch must not be left by break/return: the remaining commands are never sent but are cleared with the batch")
+			c.Check(rule, "send-whole-batch", s.Loop.Pos(), !early, "the loop over the batch must not be left by break/return: the remaining commands are never sent but are cleared with the batch")
 		}
 	}
 	// (d) clearing and flushing
@@ -449,7 +469,15 @@ func r3(c *core.Ctx, s *Sender) {
 		as := tp.Node().(*ast.AssignStmt)
 		key := fmt.Sprintf("clear-form#%d", i+1)
 		b := pat.Binds{"_t": as.Lhs[0]}
-		if pat.Stmt("_t = _t[:0]").Match(info, as, b) == nil && pat.Stmt("_t = _t[0:0]").Match(info, as, b) == nil && pat.Stmt("_t = nil").Match(info, as, b) == nil {
+		emptyMake := false
+		if call, ok := ast.Unparen(as.Rhs[0]).(*ast.CallExpr); ok && len(as.Rhs) == 1 && len(call.Args) >= 2 {
+			if bi, ok := core.Callee(info, call).(*types.Builtin); ok && bi.Name() == "make" {
+				if n, ok := core.IntConst(info, call.Args[1]); ok && n == 0 {
+					emptyMake = true
+				}
+			}
+		}
+		if !emptyMake && pat.Stmt("_t = _t[:0]").Match(info, as, b) == nil && pat.Stmt("_t = _t[0:0]").Match(info, as, b) == nil && pat.Stmt("_t = nil").Match(info, as, b) == nil {
 			c.Undecidedf(rule, key, as.Pos(), "the batch is reassigned by `%s`: not the known clearing form", c.Src(as))
 			continue
 		}
@@ -458,6 +486,36 @@ func r3(c *core.Ctx, s *Sender) {
 		w := s.X.Path(XQuery{Avoid: s.RangeX.Is(), Target: func(n XNode) bool { return n.C == s.X.Root && n.N == tn }})
 		c.Check(rule, fmt.Sprintf("clear-after-send#%d", i+1), as.Pos(), w == nil,
 			"the batch may be emptied only after the range that sends it: here it can be emptied first, so its commands are never sent", w...)
+	}
+	// a truncation inside `defer func(){...}()` of sendFunc runs at every exit reached after the defer statement
+	deferredClear := false
+	for _, dp := range s.LG.Points(func(n ast.Node) bool {
+		d, ok := n.(*ast.DeferStmt)
+		if !ok {
+			return false
+		}
+		fl, ok := ast.Unparen(d.Call.Fun).(*ast.FuncLit)
+		if !ok {
+			return false
+		}
+		has := false
+		ast.Inspect(fl.Body, func(m ast.Node) bool {
+			if as, ok := m.(*ast.AssignStmt); ok && isTrunc(as) {
+				has = true
+			}
+			return true
+		})
+		return has
+	}) {
+		isD := XPoint{s.X.Root, dp}.Is()
+		// registered before the batch is sent on every path, and no exit between the defer and the send loop
+		if s.X.Path(XQuery{Avoid: isD, Target: s.RangeX.Is()}) == nil {
+			deferredClear = true
+			c.Okf(rule, "clear-form#deferred", dp.Node().Pos(), "batch cleared by a deferred function")
+			w := s.X.Path(XQuery{From: XPoint{s.X.Root, dp}, After: true, Avoid: s.RangeX.Is(), TargetExit: true})
+			c.Check(rule, "clear-after-send#deferred", dp.Node().Pos(), w == nil,
+				"the deferred clearing of the batch must not run on a path that did not send it: here sendFunc can return after the defer statement without reaching the send loop, so queued commands are discarded unsent", w...)
+		}
 	}
 	inLit := func(n ast.Node) bool { return s.Lit.Pos() <= n.Pos() && n.End() <= s.Lit.End() }
 	truncElsewhere, flushElsewhere := false, false
@@ -473,17 +531,19 @@ func r3(c *core.Ctx, s *Sender) {
 		return true
 	})
 	w := s.X.Path(XQuery{From: s.RangeX, After: true, Avoid: xTrunc, TargetExit: true})
-	if w != nil && truncElsewhere {
-		c.Undecidedf(rule, "clear-on-every-path", s.Range.Pos(), "the batch is emptied outside sendFunc; the rule only follows the closure")
+	if deferredClear {
+		c.Okf(rule, "clear-on-every-path", s.Loop.Pos(), "the batch is emptied by a deferred function registered before the send loop")
+	} else if w != nil && truncElsewhere {
+		c.Undecidedf(rule, "clear-on-every-path", s.Loop.Pos(), "the batch is emptied outside sendFunc; the rule only follows the closure")
 	} else {
-		c.Check(rule, "clear-on-every-path", s.Range.Pos(), w == nil && len(truncs) > 0,
+		c.Check(rule, "clear-on-every-path", s.Loop.Pos(), w == nil && len(truncs) > 0,
 			"after the batch was sent every path to the end of sendFunc must empty it: otherwise the same commands are sent again with the next batch", w...)
 	}
 	w = s.X.Path(XQuery{From: s.RangeX, After: true, Avoid: XIsFlush, TargetExit: true})
 	if w != nil && flushElsewhere {
-		c.Undecidedf(rule, "flush-after-send", s.Range.Pos(), "the connection is flushed outside sendFunc; the rule only follows the closure")
+		c.Undecidedf(rule, "flush-after-send", s.Loop.Pos(), "the connection is flushed outside sendFunc; the rule only follows the closure")
 	} else {
-		c.Check(rule, "flush-after-send", s.Range.Pos(), w == nil,
+		c.Check(rule, "flush-after-send", s.Loop.Pos(), w == nil,
 			"after the batch was handed to conn.Send every path must Flush before returning: otherwise small batches stay in the client buffer while the stream is idle", w...)
 	}
 	// other writers of the batch
@@ -507,6 +567,55 @@ func r3(c *core.Ctx, s *Sender) {
 		}
 		return true
 	})
+}
+
+// opaqueEdge: the branch condition involves the barrier state, a predicate of
+// the module or a bool flag in a form that yields no readable fact about the state.
+func opaqueEdge(s *Sender, b *cfg.Block, si int) bool {
+	info := s.Info
+	cond := cfgq.CondOf(b)
+	if cond == nil {
+		return false
+	}
+	aboutBs := func(ft cfgq.Fact) bool {
+		_, ok := EqFact(ft, IsObj(info, s.Bs), func(ast.Expr) bool { return true })
+		return ok
+	}
+	for _, ft := range s.Fl.Facts(b, si) {
+		if aboutBs(ft) {
+			return false
+		}
+	}
+	for _, al := range s.Fl.AltsOf(b, si) { // a disjunction of readable facts about the state is readable
+		all := len(al) > 0
+		for _, ft := range al {
+			all = all && aboutBs(ft)
+		}
+		if all {
+			return false
+		}
+	}
+	hit := core.Mentions(info, cond, s.Bs)
+	ast.Inspect(cond, func(m ast.Node) bool {
+		switch x := m.(type) {
+		case *ast.CallExpr:
+			if f := core.CalleeFunc(info, x); f != nil && f.Pkg() != nil && strings.HasPrefix(f.Pkg().Path(), core.Module) {
+				hit = true
+			}
+		case *ast.Ident:
+			if v, ok := core.ObjOf(info, x).(*types.Var); ok && !v.IsField() && types.Identical(v.Type().Underlying(), types.Typ[types.Bool]) {
+				hit = true
+			}
+		}
+		return true
+	})
+	return hit
+}
+
+// itemField: e is <element of this iteration>.<field>.
+func itemField(info *types.Info, s *Sender, e ast.Expr, field string) bool {
+	sel, ok := ast.Unparen(e).(*ast.SelectorExpr)
+	return ok && sel.Sel.Name == field && core.FieldOf(info, sel) != nil && s.IsItem(info, sel.X)
 }
 
 func isFieldOf(info *types.Info, e ast.Expr, base types.Object, field string) bool {
